@@ -102,11 +102,15 @@ def parseClose (s : String) : Option (Nat × Bytes) :=
 def handleWS (i o : List String) : String :=
   match i, o with
   | [_, cs, ss, body, codec, frames, resp, e, _gap, closeMode, _readn], [up, msgs, recs, close, recv, ret, payloads] =>
-    match (parseListStr frames).mapM parseFrame, parseEnd e, parseHexList payloads with
-    | some fs, some e, some ps =>
+    match (parseListStr frames).mapM parseFrame, parseEnd e, parseHexList payloads,
+        (if codec ∈ ["j", "b", "jj", "jb", "bj", "bb"] then some () else none) with
+    | some fs, some e, some ps, some () =>
       let cs := cs = "1"
       let ss := ss = "1"
-      let cfg : Cfg := { cs, body := body = "1", expectBinary := codec = "b" }
+      -- codec = <request><response> (one letter: response falls back to the request marshaler);
+      -- the frame-type check follows the REQUEST marshaler, the response opcode the RESPONSE marshaler
+      let cfg : Cfg := { cs, body := body = "1", expectBinary := codec.startsWith "b" }
+      let respBinary : Bool := codec.endsWith "b"
       let respL := parseListStr resp
       let msgsL := parseListStr msgs
       let recsL := parseListStr recs
@@ -132,8 +136,8 @@ def handleWS (i o : List String) : String :=
         if bad.isSome || !started then 0
         else if ss then ps.length
         else match e with | .ok => min 1 ps.length | _ => 0
-      let outExp := wsOut cfg.expectBinary (ps.take nOut)
-      let opc := if cfg.expectBinary then "b" else "t"
+      let outExp := wsOut respBinary (ps.take nOut)
+      let opc := if respBinary then "b" else "t"
       let msgsExp := outExp.map (fun m => s!"{opc}:{toHex m.payload}")
       let malformedEnd := match bad with | some f => typeOK cfg f | none => false
       let closeExp : String :=
@@ -169,8 +173,9 @@ def handleWS (i o : List String) : String :=
           | none, none => "client-close"
           | none, some .ok => "clean"
           | none, some _ => "error"
-        s!"OK{nt} b={bin}-{bend}"
-    | _, _, _ => "BAD ws fields"
+        let mix := if cfg.expectBinary != respBinary then "-mixed" else ""
+        s!"OK{nt} b={bin}-{bend}{mix}"
+    | _, _, _, _ => "BAD ws fields"
   | _, _ => "BAD ws arity"
 
 def handle : Handler
